@@ -558,3 +558,7 @@ for _p in ("C01", "C02", "C04", "C08", "C10"):
     PROPS[_p]["rule"] += _HOOKS_NOTE
 PROPS["C04"]["rule"] += (" A further action kind writes a fact of its own (Env.AddFact) per execution; the facts found afterwards "
                          "must be exactly those of the expected executions.")
+PROPS["C14"]["rule"] += (" A further family is runaway recursion (direct, mutual, through a callback) under limits of 20 ms, 200 ms, the "
+                         "shipped 60 s and with timeouts disabled: it must end as an error on its node within 20 s - stopped by the "
+                         "timeout or by an error of its own - and the process must survive (the test binary caps the Go stack at "
+                         "64 MB so that an overflow shows in seconds).")
